@@ -19,6 +19,7 @@ import asyncio
 import hashlib
 import json
 import random
+import time as _time
 from concurrent.futures import ThreadPoolExecutor
 from typing import Any
 
@@ -166,7 +167,8 @@ def plan_segments(n: int, cuts: list[int], between: Plan, eof: bool = True) -> P
     return plan
 
 
-def short_scenarios(kind: str, msgs: list[bytes], src: str, tier: str, with_allseg: bool) -> list[dict[str, Any]]:
+def short_scenarios(kind: str, msgs: list[bytes], src: str, tier: str, with_allseg: bool,
+                    lean: bool = False) -> list[dict[str, Any]]:
     base = {"kind": kind, "msgs": [m.hex() for m in msgs], "src": src}
     if src.startswith("server:"):
         base["up_plan"] = [["F", 10 ** 9], ["Z"], ["E"]]
@@ -203,7 +205,7 @@ def short_scenarios(kind: str, msgs: list[bytes], src: str, tier: str, with_alls
         if rest >= 2:
             add("timeout2", [("F", p), ("Z",), ("T",), ("F", 1), ("Z",), ("T",), ("F", rest - 1), ("Z",), ("E",)],
                 [L.READ_TO_MS], "reader")
-        for gap in (2500, L.READ_TO_MS, L.READ_TO_MS - 1):  # several timeouts / exact tie / just not
+        for gap in (2500,) if lean else (2500, L.READ_TO_MS, L.READ_TO_MS - 1):  # several timeouts / exact tie / just not
             for pol in ([L.READ_TO_MS], [0, L.READ_TO_MS], [L.READ_TO_MS, 0]) if timed else ([0],):
                 add("gap", [("F", p), ("G", gap), ("F", rest), ("Z",), ("E",)], pol, "reader")
     # peer close at every offset
@@ -605,7 +607,25 @@ def self_tests(rep: Report, results: list[dict[str, Any]], verdicts: dict[int, t
                 pick = r
                 break
     if pick is None:
-        raise Machinery("no accepted trace with >= 3 messages, a mid-line timeout and end-of-stream for the self-test")
+        # the tree under test produced no such execution (it is being reported for violations):
+        # fall back to the execution a conforming reader produces for plan F4 Z T F7 Z E, and make
+        # sure TLC accepts it before corrupting it
+        msgs = SHORT_SETS[0]
+        chunks = [L.ref_encode(m) for m in msgs]
+        rec = L.Rec(msgs)
+        for m, ch in zip(msgs, chunks):
+            rec.send(m, len(ch))
+        rec.feed(4); rec.begin(L.READ_TO_MS); rec.end("Msg", msgs[0]); rec.begin(L.READ_TO_MS); rec.end("Timeout")
+        rec.feed(7); rec.begin(L.READ_TO_MS); rec.end("Msg", msgs[1]); rec.begin(L.READ_TO_MS); rec.end("Msg", msgs[2])
+        rec.close(); rec.begin(L.READ_TO_MS); rec.end("Empty")
+        pick = {"kind": "tcp", "ev": rec.ev, "rb": rec.rb, "tab": rec.tab, "wire": b"".join(chunks), "notes": {},
+                "outcomes": rec.outcomes(), "feat": {"wait_partial": True},
+                "scn": {"kind": "tcp", "msgs": [m.hex() for m in msgs], "src": "ref", "fam": "canned"}}
+        if validate([pick], None, "self-test-canned")[0] != ("ok", "ok"):
+            raise Machinery("binding self-test: the canned conforming execution is not accepted")
+        if not rep.violations:
+            raise Machinery("no accepted trace with >= 3 messages, a mid-line timeout and end-of-stream for the "
+                            "self-test although no violation was found")
 
     def clone() -> dict[str, Any]:
         return {**pick, "ev": json.loads(json.dumps(pick["ev"])), "rb": list(pick["rb"])}
@@ -641,7 +661,7 @@ def self_tests(rep: Report, results: list[dict[str, Any]], verdicts: dict[int, t
     if got[5] != "H/projection":
         raise Machinery(f"binding self-test: byte-level corruption not detected ({v[5]})")
     # mutant of the harness' own fake: a stream that loses the last byte of every segment
-    scn = pick["scn"]
+    scn = {"kind": pick["scn"]["kind"], "msgs": [m.hex() for m in SHORT_SETS[0]], "src": "ref"}
     contents, chunks = materialize(scn)
 
     class LossyPort(L.FakePort):
@@ -659,6 +679,34 @@ def self_tests(rep: Report, results: list[dict[str, Any]], verdicts: dict[int, t
     if mv == "ok":
         raise Machinery("binding self-test: the lossy stream fake was accepted")
     rep.extra["binding_selftest"] = {"corrupted_rejected": got, "lossy_fake_rejected": mv}
+
+
+def drive_enumerated(rep: Report, tier: str, seed: int) -> tuple[list[dict[str, Any]], int]:
+    """Stage 2: the enumerated / seeded environments against the real code."""
+    # ---- 2. enumerate real executions
+    scns: list[dict[str, Any]] = []
+    for kind in L.KINDS:
+        for si, ms in enumerate(SHORT_SETS):
+            quick = tier == "quick"
+            scns += short_scenarios(kind, ms, "ref", tier, lean=quick and si > 0,
+                                    with_allseg=(not quick) or (si == 0 and kind != "unix"))
+        scns += explore_scenarios(kind, TINY_SET)
+        if tier == "thorough":
+            scns += explore_scenarios(kind, [b"\x0a", b"\xab\xcd"] if kind == "tcp" else [b"\x0a\x0b"])
+    # both directions through the real writers: client.write -> server loop, server reply -> client.read
+    for wk in L.CLIENT_KINDS:
+        scns += short_scenarios("server", SHORT_SETS[0], f"client:{wk}", tier, with_allseg=False, lean=tier == "quick")
+        scns += short_scenarios(wk, SHORT_SETS[0], f"server:{wk}", tier, with_allseg=False, lean=tier == "quick")
+    n_short = len(scns)
+    scns += long_scenarios(tier, seed)
+    results = [execute(s) for s in scns]
+    rep.extra["families"] = {}
+    for r in results:
+        f = r["scn"]["fam"]
+        rep.extra["families"][f] = rep.extra["families"].get(f, 0) + 1
+    rep.extra["short_scenarios"] = n_short
+
+    return results, n_short
 
 
 def run(tier: str, seed: int) -> Report:
@@ -687,9 +735,40 @@ def run(tier: str, seed: int) -> Report:
         "ls": lambda: tlc.run_tlc("MC_LinesStream", "MC_LinesStream.cfg", timeout=1800, coverage=True, workers=4),
         "ls_dev": lambda: tlc.run_tlc("MC_LinesStream", "MC_LinesStream_devS14.cfg", timeout=600, workers=2),
     }
-    with ThreadPoolExecutor(max_workers=5) as ex:
-        futs = {k: ex.submit(f) for k, f in jobs.items()}
-        mc = {k: f.result() for k, f in futs.items()}
+    nsim = 150 if tier == "quick" else 1500
+    jobs["sim"] = lambda: tlc.simulate_behaviours("MC_LinesStream", "MC_LinesStream_sim.cfg", num=nsim, depth=40,
+                                                  seed=seed + 1, timeout=900)
+    pool = ThreadPoolExecutor(max_workers=6)
+    futs = {k: pool.submit(f) for k, f in jobs.items()}
+    # while TLC works: drive the real code (stage 2); the model-checking results are collected below
+    _t = _time.time()
+    results, n_short = drive_enumerated(rep, tier, seed)
+    stage_t = {"executions": round(_time.time() - _t, 1)}
+    _t = _time.time()
+    # ---- 3. spec -> code
+    _sres, behs = futs["sim"].result()
+    drift = 0
+    replayed = 0
+    for bi, beh in enumerate(behs):
+        r, diffs = replay_behaviour(beh, L.CLIENT_KINDS[bi % 2])
+        if r is None:
+            continue
+        replayed += 1
+        r["design_diffs"] = diffs
+        results.append(r)
+    rep.extra["spec_to_code_replayed"] = replayed
+
+    stage_t["spec_to_code"] = round(_time.time() - _t, 1); _t = _time.time()
+    # ---- 4. real sockets (fakes validated against the kernel)
+    real_base = len(results)
+    real_results, real_pairs = real_socket_stage(rep, tier, seed)
+    results += real_results
+    stage_t["real_sockets"] = round(_time.time() - _t, 1); _t = _time.time()
+
+    mc = {k: f.result() for k, f in futs.items()}
+    pool.shutdown()
+    stage_t["waiting_for_tlc_mc"] = round(_time.time() - _t, 1)
+    _t = _time.time()
     for cfg in ("lines", "prefix"):
         res = mc[f"fr_{cfg}"]
         rep.add_tlc(res, f"MC_Framing_{cfg}")
@@ -712,53 +791,6 @@ def run(tier: str, seed: int) -> Report:
     rep.add_tlc(res, "MC_LinesStream_devS14 (negative control)")
     if res.violated != "T3_EndOfStreamDistinct":
         raise Machinery(f"negative control Dev_S14_PartialLineAtEof did not violate T3 (got {res.violated})")
-
-    import time as _time
-    stage_t = {"tlc_mc": round(_time.time() - rep.t0, 1)}
-    _t = _time.time()
-    # ---- 2. enumerate real executions
-    scns: list[dict[str, Any]] = []
-    for kind in L.KINDS:
-        for si, ms in enumerate(SHORT_SETS):
-            scns += short_scenarios(kind, ms, "ref", tier, with_allseg=(si == 0 or tier == "thorough"))
-        scns += explore_scenarios(kind, TINY_SET)
-        if tier == "thorough":
-            scns += explore_scenarios(kind, [b"\x0a", b"\xab\xcd"] if kind == "tcp" else [b"\x0a\x0b"])
-    # both directions through the real writers: client.write -> server loop, server reply -> client.read
-    for wk in L.CLIENT_KINDS:
-        scns += short_scenarios("server", SHORT_SETS[0], f"client:{wk}", tier, with_allseg=False)
-        scns += short_scenarios(wk, SHORT_SETS[0], f"server:{wk}", tier, with_allseg=False)
-    n_short = len(scns)
-    scns += long_scenarios(tier, seed)
-    results = [execute(s) for s in scns]
-    rep.extra["families"] = {}
-    for r in results:
-        f = r["scn"]["fam"]
-        rep.extra["families"][f] = rep.extra["families"].get(f, 0) + 1
-    rep.extra["short_scenarios"] = n_short
-
-    stage_t["executions"] = round(_time.time() - _t, 1); _t = _time.time()
-    # ---- 3. spec -> code
-    nsim = 150 if tier == "quick" else 1500
-    _sres, behs = tlc.simulate_behaviours("MC_LinesStream", "MC_LinesStream_sim.cfg", num=nsim, depth=40,
-                                          seed=seed + 1, timeout=900)
-    drift = 0
-    replayed = 0
-    for bi, beh in enumerate(behs):
-        r, diffs = replay_behaviour(beh, L.CLIENT_KINDS[bi % 2])
-        if r is None:
-            continue
-        replayed += 1
-        r["design_diffs"] = diffs
-        results.append(r)
-    rep.extra["spec_to_code_replayed"] = replayed
-
-    stage_t["spec_to_code"] = round(_time.time() - _t, 1); _t = _time.time()
-    # ---- 4. real sockets (fakes validated against the kernel)
-    real_base = len(results)
-    real_results, real_pairs = real_socket_stage(rep, tier, seed)
-    results += real_results
-    stage_t["real_sockets"] = round(_time.time() - _t, 1); _t = _time.time()
 
     # ---- 5. code -> spec: TLC validates every execution
     byte_ids = set()
@@ -826,18 +858,21 @@ def run(tier: str, seed: int) -> Report:
 def replay(path: str) -> int:
     quiet_gallia_logging()
     data = json.loads(open(path).read())
-    bad = 0
+    runs = []
     for v in data["violations"]:
         scn = v["detail"]["scenario"]
         if scn.get("fam") in ("real-socket", "real-socket-server", "real-e2e", "tlc-simulate") or "plan" not in scn \
                 or "policy" not in scn:
             print(f"replay: scenario family {scn.get('fam')} is replayed by re-running the tier; skipped")
             continue
-        r = execute(scn)
-        verdict = validate([r], None, "replay")[0][0]
+        runs.append(execute(scn))
+    verdicts = validate(runs, None, "replay") if runs else {}
+    bad = 0
+    for i, r in enumerate(runs):
+        scn = r["scn"]
         print(f"replay kind={r['kind']} fam={scn.get('fam')} plan={scn['plan'][:8]} outcomes={r['outcomes'][:8]} "
-              f"verdict={verdict}")
-        bad += verdict != "ok"
+              f"verdict={verdicts[i][0]}")
+        bad += verdicts[i][0] != "ok"
     if bad:
         print(f"VIOLATION property=C19 replay={path}")
         return 1
